@@ -8,6 +8,7 @@ pub mod program;
 pub mod roles;
 
 use aldrin::{Client, Handle};
+use aldrin_core::message::MessageOps;
 use aldrin_broker::verif::Record;
 use aldrin_broker::{Broker, BrokerHandle};
 use serde_json::{json, Value as J};
@@ -105,9 +106,21 @@ impl Bus {
 
     /// As `add_client`; `fail_broker_end` fails the k-th transport operation of the broker's end.
     pub fn add_client2(&mut self, rng: &mut Rng, fifo: Option<usize>, fail_at: Option<u64>, fail_broker_end: Option<u64>) -> Option<usize> {
+        self.add_client3(rng, fifo, fail_at, fail_broker_end, None)
+    }
+
+    /// As `add_client2`; `minor` makes the client negotiate protocol 1.<minor>.
+    pub fn add_client3(
+        &mut self,
+        rng: &mut Rng,
+        fifo: Option<usize>,
+        fail_at: Option<u64>,
+        fail_broker_end: Option<u64>,
+        minor: Option<u32>,
+    ) -> Option<usize> {
         let i = self.clients.len();
         let (broker_end, client_end) = pair(fifo, format!("b{i}"), format!("c{i}"), Some(self.taps.clone()));
-        let client_end = client_end.fail_at(fail_at);
+        let client_end = client_end.fail_at(fail_at).rewrite_connect_minor(minor);
         let broker_end = broker_end.fail_at(fail_broker_end);
 
         let conn_slot: Shared<Option<Result<aldrin_broker::Connection<Tap>, String>>> = shared(None);
@@ -135,6 +148,7 @@ impl Bus {
         match (conn, client) {
             (Some(Ok(conn)), Some(Ok(client))) => {
                 let handle = client.handle().clone();
+                let version = minor.unwrap_or(20).min(20);
                 let conn_handle = conn.handle().clone();
                 let run_result = shared(None);
                 let rr = run_result.clone();
@@ -162,10 +176,10 @@ impl Bus {
                     run_result,
                     conn_result,
                     fifo,
-                    version: 20,
+                    version,
                     conn_handle,
                 });
-                self.log.push(json!({"t": "client", "cl": i, "fifo": fifo.map(|x| x as i64).unwrap_or(-1)}));
+                self.log.push(json!({"t": "client", "cl": i, "ver": version, "fifo": fifo.map(|x| x as i64).unwrap_or(-1)}));
                 Some(i)
             }
             (a, b) => {
@@ -248,7 +262,26 @@ impl Bus {
             let cl: i64 = label[1..].parse().unwrap_or(-1);
             let j = match ev {
                 TapEvent::Sent(m) => json!({"t": "tap", "cl": cl, "dir": "tx", "m": vcore::trace::msg_json(&mut namer, m)}),
-                TapEvent::Received(m) => json!({"t": "tap", "cl": cl, "dir": "rx", "m": vcore::trace::msg_json(&mut namer, m)}),
+                TapEvent::Received(m) => {
+                    // C12: a payload delivered to a client must already be in the encoding epoch of its
+                    // negotiated version: converting it to that version must not change it
+                    let ver = self.clients.get(cl as usize).map(|c| c.version).unwrap_or(20);
+                    let epoch_ok = match m.value() {
+                        Some(v) => {
+                            let mut copy = v.to_owned();
+                            match copy.convert(None, aldrin_core::ProtocolVersion::new(1, ver)) {
+                                Ok(()) => {
+                                    let a: &[u8] = copy.as_ref();
+                                    let b: &[u8] = v.as_ref();
+                                    a == b
+                                }
+                                Err(_) => true, // ill-formed payloads are not this property's business
+                            }
+                        }
+                        None => true,
+                    };
+                    json!({"t": "tap", "cl": cl, "dir": "rx", "ver": ver, "epochOk": epoch_ok, "m": vcore::trace::msg_json(&mut namer, m)})
+                }
                 TapEvent::Failed(op, e) => json!({"t": "tapfail", "cl": cl, "op": format!("{op:?}"), "err": format!("{e:?}")}),
             };
             all.push((*seq, j));
